@@ -44,6 +44,9 @@ where
     #[error("duplicate operation {0} processed in group {1}")]
     DuplicateOperation(OP, ID),
 
+    #[error("group {0} already exists, it can not be created again by operation {1}")]
+    DuplicateGroup(ID, OP),
+
     #[error("group cycle detected adding {0} to {1} operation={2}")]
     GroupCycle(ID, ID, OP),
 
@@ -628,6 +631,21 @@ where
         } else {
             y
         };
+
+        // A group can only be created once: reject "create" operations for a group which already
+        // exists in the state at the claimed dependencies, otherwise anyone could replace the
+        // members of an existing group.
+        if operation.action().is_create()
+            && temp_y
+                .inner
+                .current_state()
+                .contains_key(&operation.group_id())
+        {
+            return Err(GroupCrdtError::DuplicateGroup(
+                operation.group_id(),
+                operation.id(),
+            ));
+        }
 
         // Detect if this operation would cause a nested group cycle.
         if temp_y.inner.would_create_cycle(operation) {
